@@ -51,7 +51,7 @@ def run_case(n_sims: int, transport: list, faulty: int, index: int, kind: str, a
     def on_alarm(signum, frame):
         raise Hang()
     signal.signal(signal.SIGALRM, on_alarm)
-    signal.alarm(int(timeout))
+    signal.setitimer(signal.ITIMER_REAL, float(timeout), 2.0)     # repeating: a time-out swallowed by a broad `except` fires again
     world = None
     try:
         sys.stderr = destroyed
@@ -88,18 +88,23 @@ def run_case(n_sims: int, transport: list, faulty: int, index: int, kind: str, a
         res["loop_closed"] = loop.is_closed()
         pend = [t for t in asyncio.all_tasks(loop) if not t.done()]
         res["pending_tasks"] = sorted(set((t.get_coro().__qualname__ if t.get_coro() is not None else "?") for t in pend))
-        # a second shutdown must be a no-op
+        # a second shutdown must be a no-op (under its own time limit: after a run that hung in shutdown() it may hang again)
+        signal.setitimer(signal.ITIMER_REAL, 3.0, 2.0)
         try:
             if world is not None:
                 world.shutdown()
             res["second_shutdown"] = "ok"
+        except Hang:
+            res["second_shutdown"] = "hang"
         except BaseException as e:  # noqa: BLE001
             res["second_shutdown"] = "raised " + type(e).__name__
+        finally:
+            signal.setitimer(signal.ITIMER_REAL, 0)
     except Hang:
         res["outcome"] = "hang"
         res["elapsed"] = round(time.time() - t0, 2)
     finally:
-        signal.alarm(0)
+        signal.setitimer(signal.ITIMER_REAL, 0)
         world = None
         gc.collect()
         sys.stderr = old_stderr
@@ -178,7 +183,7 @@ def judge(res: dict) -> list:
     if res["outcome"] == "hang":
         vio.append({"law": "run() terminates instead of hanging", **res})
         return vio
-    if res["outcome"] == "returned" and res["kind"] == "exit" and res.get("fault_reached", True):
+    if res["outcome"] == "returned" and res["kind"] in ("exit", "reset", "close") and res.get("fault_reached", True):
         vio.append({"law": "a dying simulator makes run() end with an error", **res})
     # (a process that dies some time AFTER answering a request may die after its last request: run() may then return normally)
     # (KeyboardInterrupt, wherever it is raised, ends run() normally with "Simulation canceled": by design)
@@ -187,7 +192,7 @@ def judge(res: dict) -> list:
     if res.get("elapsed", 0) > 5:
         vio.append({"law": "run() terminates promptly", **res})
     for sid, c in res["finalize_counts"].items():
-        if sid == faulty and res["kind"] in ("exit", "exit_idle") and res.get("fault_reached", True):
+        if sid == faulty and res["kind"] in ("exit", "exit_idle", "reset", "close") and res.get("fault_reached", True):
             continue
         if c != 1:
             vio.append({"law": "every other simulator receives stop/finalize exactly once", "sim": sid, "count": c, **res})
@@ -216,7 +221,7 @@ def model_line(res: dict) -> tuple[str, str]:
     else:
         kind = "other"
     stopped = [i for i in range(res["n_sims"]) if res["finalize_counts"][f"S{i}"] >= 1 or
-               (i == res["faulty"] and res["kind"] in ("exit", "exit_idle") and res.get("fault_reached"))]
+               (i == res["faulty"] and res["kind"] in ("exit", "exit_idle", "reset", "close") and res.get("fault_reached"))]
     impl = (("returned" if res["outcome"] == "returned" else "raised") + f" closed={'true' if res.get('loop_closed') else 'false'} "
             f"stops={len(stopped)}" + "".join(f" {i}" for i in stopped) +
             f" second-shutdown-noop={'true' if res.get('second_shutdown') == 'ok' else 'false'}")
@@ -271,10 +276,16 @@ def enumerate_cases(tier: str, rng):
                 sl = [0, 0, 0]
                 sl[slow_i] = 0.4
                 busy.append((3, tr, faulty, index, kind, None, None, sl))
+    # ... and the same with a SHORT step (80 ms): the busy simulator answers while mosaik is still shutting down, i.e. its reply arrives
+    # for a request that has been cancelled in the meantime
+    brief = [c[:7] + ([0.08 if x else 0 for x in c[7]],) for c in busy]
     if tier == "quick":
         # the first simulator running ahead of a failing last one is the shape in which it is reliably busy at the fault
         ahead = [c for c in busy if c[2] == 2 and c[7][0] and c[3] in (1, 2)]
         busy = rng.sample(ahead, 3) + rng.sample([c for c in busy if c not in ahead], 3)
+        ahead_b = [c for c in brief if c[2] == 2 and c[7][0] and c[3] in (1, 2)]
+        brief = rng.sample(ahead_b, 2) + rng.sample([c for c in brief if c not in ahead_b], 2)
+    busy = busy + brief
     # a subprocess simulator that dies while mosaik has NO request outstanding to it (it waits for its slow successor under lazy
     # stepping): the death shows as end-of-stream on an idle connection, the next request must fail instead of waiting forever
     idle = []
@@ -304,7 +315,21 @@ def enumerate_cases(tier: str, rng):
                         base_exc.append((n, tr2, faulty, index, kind))
     if tier == "quick":
         base_exc = rng.sample(base_exc, 10)
-    return base + legacy + flavoured + busy + idle + base_exc
+    # a subprocess simulator that closes its connection without exiting: orderly (FIN) or abortively (RST: the channel's receiver
+    # then ends without failing the outstanding request)
+    closing = []
+    for n in (2, 3):
+        for faulty in range(n):
+            for index in range(0, 6):
+                for kind in ("reset", "close"):
+                    tr = ["local"] * n
+                    tr[faulty] = "remote"
+                    closing.append((n, tr, faulty, index, kind))
+                    if n == 3:
+                        closing.append((n, ["remote"] * n, faulty, index, kind))
+    if tier == "quick":
+        closing = rng.sample(closing, 6)
+    return base + legacy + flavoured + busy + idle + base_exc + closing
 
 
 def run_suite(driver, rng, tier: str) -> dict:
@@ -341,7 +366,8 @@ def run_suite(driver, rng, tier: str) -> dict:
                      "a quarter (quick) / all (thorough) of the in-process cases again with a hybrid or event-based faulty simulator raising TypeError / KeyError / RuntimeError; "
                      "6 (quick) / 48 (thorough) cases in which a healthy subprocess simulator is in the middle of a 0.4 s step when another simulator fails; "
                      "4 (quick) / 20 (thorough) cases in which a subprocess simulator dies 50 ms AFTER answering request k, while mosaik has no request outstanding to it (kind exit_idle); "
-                     "10 (quick) / 84 (thorough) cases in which an in-process simulator raises SystemExit or KeyboardInterrupt in a handler (kinds sysexit, kbint)" +
+                     "10 (quick) / 84 (thorough) cases in which an in-process simulator raises SystemExit or KeyboardInterrupt in a handler (kinds sysexit, kbint); "
+                     "6 (quick) / 96 (thorough) cases in which a subprocess simulator closes its connection without exiting, orderly or by a reset (kinds close, reset)" +
                      ("; remote cases sampled (14)" if tier == "quick" else "; all remote cases"))}
 
 
